@@ -861,11 +861,26 @@ class SigmaRegularExpression(SigmaType):
         """
         Replace all occurrences of string part matching regular expression with placeholder.
         """
+
+        def regex_callback(
+            p: Placeholder,
+        ) -> Iterator[str | SpecialChars | Placeholder | "SigmaString"]:
+            # a wildcard that replaces a placeholder is spelled as regular expression
+            for replacement in callback(p):
+                if replacement is SpecialChars.WILDCARD_MULTI:
+                    any_text = SigmaString()  # ".*": the asterisk of a regular expression is kept as
+                    any_text.s = [".", SpecialChars.WILDCARD_MULTI]  # special character part
+                    yield any_text
+                elif replacement is SpecialChars.WILDCARD_SINGLE:
+                    yield "."
+                else:
+                    yield replacement
+
         # Pass the SigmaString itself: building it again from its string form would turn
         # placeholders that are still unresolved into plain text.
         return [
             SigmaRegularExpression(sigmastr, set(self.flags))
-            for sigmastr in self.regexp.replace_placeholders(callback)
+            for sigmastr in self.regexp.replace_placeholders(regex_callback)
         ]
 
 
